@@ -103,6 +103,13 @@ func paramNamed(fn *ssa.Function, name string) *ssa.Parameter {
 	if fn == nil {
 		return nil
 	}
+	if fn.Prog != nil {
+		for _, m := range loadedModules {
+			if m.Prog == fn.Prog {
+				m.anchor(fn)
+			}
+		}
+	}
 	for _, p := range fn.Params {
 		if p.Name() == name {
 			return p
